@@ -81,4 +81,11 @@ CHECKS['C13'] = {'engine': 'E-B + E-C', 'technique': 'explicit-state exploration
     'text': 'Sequential: 17 scenarios (one per shared-state shortcut: sequence/optional scratch slots, Bits shared integer, prototypes by pickle and deepcopy, selectors returning fresh or the same objects, marker/regex Data, described fields, shared sub-packet classes, default lists, a prototype shared by two classes, positioned fields) x generated/generic; all histories of construct/unpack/set scalar/append/set nested/pack; after every step all bystanders read and pack as before, pack is repeatable and pure, no mutable sub-object is shared, defaults are intact. Threads: every schedule with <=1 (quick) / <=2 (thorough) preemptions of 2 (thorough also 3) threads doing unpack+pack or construct+pack on distinct packets, switching at every source line of bisturi and of the generated modules; each thread must observe what it observes alone; violations are replayed twice before being reported.',
     'note': 'Switches only at line boundaries inside bisturi/generated code; preemption bound as stated; selectors follow the Ref docstring (fresh object per call) except in the dedicated selector-shared scenario. F2 (regex delimiter not kept) is a listed known finding.'}
 
+CHECKS['C15'] = {'engine': 'E-B on E-C', 'technique': 'explicit-state exploration: exhaustive enumeration of all operation histories up to depth 3/4 over the real code cache (real files, harness-controlled clock, virtual processes), violating traces replayed with real interpreter processes',
+    'text': 'All histories of define(declaration, options) x {A, same-length sibling A2, B, C, V} x option sets / new process / clock tick / bytecode toggle / forget sources, run on the real generate_code and importlib over real files whose time stamps the harness sets (everything in one second unless a tick occurs). After every definition the new class and every class still alive in the process must behave per its own declaration on a battery; violating histories and a share of passing ones are replayed with real interpreter processes.',
+    'note': 'Process isolation (private module table, import locks, bytecode flag) and the clock are modelled, files and import logic are real (mc/fsx.py, mc/cache.py); expected behaviour per declaration is 5 hand-written lines each; depth bound as stated.'}
+CHECKS['C16'] = {'engine': 'E-C', 'technique': 'fault enumeration of every crash point (before every file-system step, after every character written) plus explicit-state depth-first search with a visited set over all interleavings of the file-system steps of two processes, on the real implementation under an interposition layer',
+    'text': 'Crash: a definition is killed before each interposed file-system step and after each character of each write from several initial cache states; from every distinct resulting directory a fresh process defines the same, the same-length sibling and another declaration: it must succeed and behave per its own declaration. Interleavings: all schedules of two concurrently defining processes (identical, same-length, different declarations; several initial cache states; bytecode on/off; one clock tick anywhere) covered by DFS with a visited set keyed by (directory contents+mtimes, clock, per process pc + digest of observations); violating crash states are re-run with a real interpreter.',
+    'note': 'Each write() is a step and immediately visible; close() is not a step; steps on a file whose name carries the writing thread id are not choice points unless a directory listing occurred (they commute); 2 processes, <=1 clock tick; schedule cap reported in the evidence (exhaustive=false when hit).'}
+
 NOT_APPLICABLE = {}
